@@ -289,10 +289,74 @@ def decoder_bfs(depth, res, max_states=None):
     return len(seen)
 
 
+# ---------------------------------------------------------------- decoder from a far (non-initial) state
+def far_prefix(n):
+    """A well-formed stream producing exactly n varied bytes: literals of a 7-byte cycle, then non-overlapping /
+    overlapping references (fast to build, long to look back into)."""
+    stream = bytearray()
+    out = bytearray()
+    seedlits = [13, 14, 15, 16, 17, 18, 19, 1, 2, 20, 21]     # table indices: a..g, newline, space, h, i
+    for k in seedlits:
+        stream.append(k)
+        out.append(rc.C_TABLE[k])
+    i = 0
+    while len(out) < n:
+        i += 1
+        if i % 5 == 0 or n - len(out) < 3:
+            k = 13 + (i * 7) % 40
+            stream.append(k)
+            out.append(rc.C_TABLE[k])
+            continue
+        ln = min(n - len(out), 3 + (i * 5) % 15)
+        off = 1 + (i * 37) % min(len(out), 3135)
+        stream += bytes([0x3c + off // 16, (off % 16) | ((ln - 2) << 4)])
+        for _ in range(ln):
+            out.append(out[-off])
+    return bytes(stream), bytes(out)
+
+
+def decoder_far(lo, hi, lens, res, produced=3300):
+    """From the state 'produced bytes already decoded', one more reference at every offset in [lo, hi) x lens: the
+    format addresses offsets 1..(255-60)*16+15 = 3135 whichever window the producer searched."""
+    compress, _ = mods()
+    pre_stream, pre_out = far_prefix(produced)
+    if decode_all(pre_stream)[0] != pre_out or rc.c_decode(pre_stream, len(pre_out))[0] != pre_out:
+        raise AssertionError('harness: far_prefix stream does not decode to its own output under the reference decoders')
+    for off in range(lo, hi):
+        for ln in lens:
+            s2 = pre_stream + bytes([0x3c + off // 16, (off % 16) | ((ln - 2) << 4)]) + b'\x0d'
+            want = bytearray(pre_out)
+            for _ in range(ln):
+                want.append(want[-off])
+            want.append(rc.C_TABLE[0x0d])
+            want = bytes(want)
+            res.evaluations += 1
+            res.transitions += 1
+            res.nontriv(('far', off, ln))
+            res.cover('far_offsets', off)
+            case = {'kind': 'stream', 'stream': s2}
+            area = header(len(want)) + s2 + bytes(24)
+            try:
+                n, code, cs = compress.decompress_code(bytearray(area))
+            except Exception as e:
+                res.violation('C05|decoder|raise|%s|%s' % (type(e).__name__, op_class(('ref', off, ln))),
+                              'well-formed stream ending in a reference offset %d length %d after %d produced bytes: '
+                              'decompress_code raised %r' % (off, ln, produced, e), case)
+                continue
+            if code != want:
+                res.violation('C05|decoder|mismatch|%s' % op_class(('ref', off, ln)),
+                              'stream ending in a reference offset %d length %d after %d produced bytes: picotool decodes '
+                              '%r, format says %r' % (off, ln, produced, code[-24:], want[-24:]), case)
+            else:
+                res.outcome(('far', ln))
+
+
 def op_class(op):
     if op[0] == 'lit':
         return 'literal-escaped' if op[1][0] == 0 else 'literal-table'
     _, off, ln = op
+    if off > WINDOW:
+        return 'ref-offset-above-3120'
     return 'ref-overlap' if off < ln else 'ref'
 
 
@@ -345,6 +409,8 @@ def shards(tier, seed):
     items += [('capacity', d) for d in ((0, 1, 8) if tier == 'quick' else (-1, 0, 1, 4, 8, 9))]
     items += [('decoder', BOUNDS[tier]['decoder_depth'])]
     items += [('history', 3 if tier == 'quick' else 4)]
+    # every addressable offset 1..3135 from a far state: quick lengths {3, 17}, thorough all 16 lengths 2..17 -> 3..17
+    items += [('far', lo, min(3136, lo + 196), tier) for lo in range(1, 3136, 196)]
     # long-running shards first
     items.sort(key=lambda it: {'capacity': 0, 'decoder': 1, 'window': 2}.get(it[0], 3))
     return items
@@ -356,6 +422,11 @@ def run_shard(item):
     if kind == 'history':
         check_history(item[1], res)
         res.sample({'family': 'history', 'texts': HISTORY_TEXTS[:3], 'sequences': 'all of length 2..%d over 5 texts' % item[1]})
+        return res
+    if kind == 'far':
+        decoder_far(item[1], item[2], (3, 17) if item[3] == 'quick' else tuple(range(3, 18)), res)
+        if item[1] == 1:
+            res.sample({'family': 'far', 'meaning': 'after 3300 decoded bytes, a reference at every offset 1..3135'})
         return res
     if kind == 'strings':
         for idx in range(item[1], item[2]):
